@@ -252,13 +252,21 @@ class Flow:
         return [self.defs[i] for i in sorted(self.IN[self.cfg.exit]) if self.defs[i].name == name]
 
     # -- expansion ----------------------------------------------------------------
-    def expand(self, expr: ast.AST, depth: int = 8) -> ast.AST:
-        return self._expand(expr, depth, frozenset())
+    def expand(self, expr: ast.AST, depth: int = 8, keep: frozenset | set = frozenset()) -> ast.AST:
+        """keep: local names that are NOT substituted (stay plain names)."""
+        old = getattr(self, "_keep", frozenset())
+        self._keep = frozenset(keep)
+        try:
+            return self._expand(expr, depth, frozenset())
+        finally:
+            self._keep = old
 
     def _expand(self, expr, depth, active) -> ast.AST:
         return _RebuildWith(self, depth, active).rebuild(expr)
 
     def _subst(self, n: ast.Name, ds: list[Def], depth: int, active) -> ast.AST:
+        if n.id in getattr(self, "_keep", ()):
+            return ast.Name(id=n.id, ctx=ast.Load())
         if depth <= 0:
             return ast.Name(id=n.id, ctx=ast.Load())
         outs = []
@@ -314,8 +322,8 @@ class Flow:
         return ast.Name(id=d.name, ctx=ast.Load())
 
     # -- small predicates ------------------------------------------------------------
-    def text(self, expr: ast.AST, depth: int = 8) -> str:
-        return " ".join(ast.unparse(self.expand(expr, depth)).split())
+    def text(self, expr: ast.AST, depth: int = 8, keep=frozenset()) -> str:
+        return " ".join(ast.unparse(self.expand(expr, depth, keep)).split())
 
     def mentions(self, expr: ast.AST, name: str, depth: int = 10) -> bool:
         """Does the expanded expression mention the plain name (parameter / global)?"""
